@@ -206,6 +206,8 @@ func (w *WSpec) build(env *Env) *built {
 			})
 		case "substream":
 			b.procs[ps.Name] = components.NewStreamToSubStream(wf, ps.Name)
+		case "splitter":
+			b.procs[ps.Name] = components.NewFileSplitter(wf, ps.Name, 1)
 		case "portless":
 			p := wf.NewProc(ps.Name, "# nothing")
 			name := ps.Name
@@ -447,6 +449,15 @@ func (w *WSpec) referencePre(pre map[string]string) *Ref {
 			case "tagger":
 				r.Emit[p.Name+".out"] = inStream["in"]
 				r.OrderOK[p.Name+".out"] = orderOK
+			case "splitter":
+				// one line per part; the source files hold one line without final newline, so
+				// each input yields part 1 (the line + newline) and an empty part 2
+				for _, in := range inStream["file"] {
+					r.Files[in+".split_1"] = r.Files[in] + "\n"
+					r.Files[in+".split_2"] = ""
+					r.Emit[p.Name+".split_file"] = append(r.Emit[p.Name+".split_file"], in+".split_1", in+".split_2")
+				}
+				r.OrderOK[p.Name+".split_file"] = orderOK
 			case "joiner":
 				members := []string{}
 				for _, e := range w.Edges {
